@@ -91,6 +91,42 @@ CHECKS = {
         note="Audit hooks see interpreter-level events only; third-party dependencies are trusted base.",
         design="DESIGN.md section 4 / C18",
     ),
+    "C13": dict(
+        technique="property-based testing (Hypothesis) of real CLI runs with read-back of every cell of rp2_full_report.ods (own ODS reader) against ComputedData obtained through the API from the same files, plus independent running sums / sold % / window membership from the generated rows",
+        text="Generated multi-asset inputs x methods/schedules x windows x 6 country/language pairs; sheets, legend (method(s), filters), In/Out/Intra tables, summaries, balances with per-holder totals, average price and the gain/loss detail incl. k/n labels are compared cell by cell.",
+        note="Doubles compared to double precision, hyperlink payload decimals exactly; running sums tie-tolerant; legend 'a->b:' wording not judged.",
+        design="DESIGN.md section 4 / C13",
+    ),
+    "C14": dict(
+        technique="property-based testing (Hypothesis) of real rp2_us / rp2_ie runs: multiset equality between the rows of all tax-report sheets and the window's fractions, sheet map taken from the property statement",
+        text="Inputs cycle through all 14 transaction types with 2-3 assets sharing sheets; every fraction must appear exactly once on exactly the sheet of its type, sheets without rows must be absent, no gaps or overwritten rows.",
+        note="Numbers enter the multiset key rounded to 9 significant digits (cells are doubles).",
+        design="DESIGN.md section 4 / C14",
+    ),
+    "C15": dict(
+        technique="property-based testing (Hypothesis) of real CLI runs with read-back of open_positions.ods against a conservation-law model (unrealised cost from unconsumed lot parts, balances from the computed balance set)",
+        text="Multi-asset, multi-holder inputs incl. fully sold, income-only and buy-only assets and random to-dates; row sets of both sheets, balances, per-unit cost, cost bases adding up to the unrealised cost, weights adding up to 1, realised + unrealised = total cost.",
+        note="Sums compared to 1e-12 relative; assets whose unrealised cost is below 1e-12 are not judged (R13).",
+        design="DESIGN.md section 4 / C15",
+    ),
+    "C17": dict(
+        technique="metamorphic property-based testing (Hypothesis) on real CLI runs: hash-seed invariance, row/table/sheet permutation invariance, asset-subset invariance, plus a stateful RuleBasedStateMachine over one output directory",
+        text="content.xml of every report is compared byte for byte between the related runs; asset-subset relation compares parsed cells of the asset's sheets/rows; API dumps keyed by unique id are compared as well.",
+        note="Permutation relation only for inputs with pairwise distinct instants; meta.xml (creation date) is not compared.",
+        design="DESIGN.md section 4 / C17",
+    ),
+    "C19": dict(
+        technique="property-based testing (Hypothesis) of real CLI runs: every HYPERLINK formula of the Tax and Summary sheets is resolved and the target row compared (unique id, timestamp, table direction); hidden transactions must be unlinked",
+        text="Inputs biased to several assets sharing sheet row numbers, shuffled rows and from-dates hiding consumed lots; found and now guards F6 (fixed).",
+        note="Unique ids are distinct per spreadsheet row; artificial fee rows are told apart by table.",
+        design="DESIGN.md section 4 / C19",
+    ),
+    "C20": dict(
+        technique="property-based testing (Hypothesis) of real rp2_jp runs with read-back of sheet names, transaction rows and cross-sheet formula text of tax_report_jp.ods",
+        text="Sparse / non-consecutive years, years first met out of order across tables, disposal-only years, -g en / kl / default; exact sheet set, per-year transaction rows (multiset + time order), opening-balance chain to the greatest earlier year recognised through the closing cells' own formulas, summary lines. Found and now guards F8 (fixed).",
+        note="yen = amount x spot price in this generator; DONATE yen cell (formatted text) and fee-less transfers not judged; values below 1e-12 are dust (R13).",
+        design="DESIGN.md section 4 / C20",
+    ),
 }
 
 NOT_APPLICABLE = []
